@@ -169,8 +169,19 @@ def radconv_case(draw):
     return {"kind": "radconv", "a": a, "v": draw(st.sampled_from(["mrad", "rad", "mrad"]))}
 
 
+@st.composite
+def decimal_exact_case(draw):
+    """decimal.Decimal magnitudes (a documented magnitude type) with a Decimal uncertainty, scaled by an exact Decimal"""
+    x = draw(st.sampled_from(["4", "-4", "0.25", "12.5", "-0.75", "1000"]))
+    e = draw(st.sampled_from(["0.05", "0.5", "0.001", "2"]))
+    k = draw(st.sampled_from(["-3", "3", "-2", "-0.5", "0.5", "-1", "7", "-10"]))
+    form = draw(st.sampled_from(["a*k", "k*a", "a/k", "a*K", "K*a", "a/K", "q*k", "k*q", "q/k"]))
+    return {"kind": "decimal_exact", "x": x, "e": e, "k": k, "form": form}
+
+
 def strategies(tier):
     return {
+        "decimal_exact": (decimal_exact_case(), 150, 1500),
         "log_sums": (logsum_case(), 400, 8000),
         "number_to_rad": (radconv_case(), 200, 4000),
         "magnitude_ops": (mag_case(), 2500, 60000),
@@ -292,6 +303,32 @@ def check_exact(case, v):
         return v.fail("exact-factor", f"{txt}: error {err!r}, expected {exp!r}")
     v.nt(k < 0 or isinstance(a["x"], list))
     v.label("exact_" + form)
+
+
+def check_decimal_exact(case, v):
+    from decimal import Decimal
+    from scinumtools.units import Magnitude, Quantity
+    x, e, k, form = Decimal(case["x"]), Decimal(case["e"]), Decimal(case["k"]), case["form"]
+    K = Magnitude(k) if "K" in form else k
+    txt = f"{form} with a = {'Quantity' if 'q' in form else 'Magnitude'}(Decimal({case['x']}) +- Decimal({case['e']})), k = Decimal({case['k']})"
+    try:
+        # (a Decimal quantity with an uncertainty cannot be built with a unit string on the unchanged tree: discarded)
+        A = Quantity(x, {"m": 1}, abse=e) if "q" in form else Magnitude(x, e)
+        r = {"*": lambda: (K * A if form[0] in "kK" else A * K), "/": lambda: A / K}[form[1]]()
+    except Exception as ex:
+        return v.discard("decimal arithmetic not supported for this form: " + type(ex).__name__)
+    err = r.abse()
+    if isinstance(err, Magnitude) or hasattr(err, "value") and not isinstance(err, Decimal):
+        err = err.value
+    if err is None:
+        return v.fail("error-lost", f"{txt}: result has no error")
+    exp = e / abs(k) if "/" in form else e * abs(k)
+    if err < 0:
+        return v.fail("negative-error", f"{txt} has error {err!r}")
+    if abs(Decimal(str(err)) - exp) > abs(exp) * Decimal("1e-12"):
+        return v.fail("exact-factor", f"{txt}: error {err!r}, expected {exp!r}")
+    v.nt(k < 0)
+    v.label("decimal_exact_" + form)
 
 
 def check_pow(case, v):
@@ -620,7 +657,7 @@ def check(case):
     v = Verdict()
     try:
         with np.errstate(all="ignore"):
-            {"mag": check_mag, "exact": check_exact, "pow": check_pow, "rele": check_rele,
+            {"mag": check_mag, "exact": check_exact, "decimal_exact": check_decimal_exact, "pow": check_pow, "rele": check_rele,
              "conv": check_conv, "qsum": check_qsum, "logsum": check_logsum, "radconv": check_radconv, "qprod": check_qprod, "custom_conv": check_custom_conv}[case["kind"]](case, v)
     finally:
         if not R.tables_pristine():
